@@ -7,8 +7,19 @@
     - a second Commit after nodes were resolved from the database (clean nodes that the
       committer skips): [C07_reopen] is about tries reached from the empty trie by
       Update / Delete / Hash, all of whose nodes are dirty;
-    - insert / delete THROUGH hash nodes (only Get through resolution is proved);
-    - VerifyRangeProof (not modelled);
+    - (insert / delete / Hash THROUGH hash nodes after ONE commit are proved since round 3:
+      C07_root_independent_of_commit; what stays open is the SECOND commit below);
+    - VerifyRangeProof: modelled since round 3 (ModelRange.v: proofToPath, unsetInternal, unset,
+      hasRightElement, the four cases), compared with the implementation on honest, tampered and
+      malformed inputs; PROVED only for the proof-less whole-trie form (C07_range_whole_partial /
+      _complete) and REFUTED for elements outside the edge keys (C07_range_outside_refuted, known
+      finding).  Soundness of the two-edge form for the elements INSIDE [firstKey, lastKey] is
+      carried by the direct oracle range-unsound (incl. the exhaustive drop / alter sweeps) only;
+    - the iterator: C07_iterator_enumerates is about the SEQUENCE OF LEAVES (the model filters the
+      pre-order walk); the seek machinery of nodeIterator (stack, nextChildAt) is compared, not
+      transcribed;
+    - the reference-counting garbage collection of triedb/hashdb (Reference / Dereference / Cap):
+      direct oracle gc-lost-node / gc-content only (the model's database only grows);
     - types.DeriveSha's index order being [sorted_bytes] (the rlp(i) keys are compared by the
       harness; C07_stack_equals takes the order as a hypothesis). *)
 From Coq Require Import List NArith Arith Bool.
